@@ -75,6 +75,31 @@ var units = []Unit{
 	{
 		Name: "LSHAuto", PkgDir: "domain", Funcs: []string{"ShouldUseLSH"},
 	},
+	{
+		Name: "CloneSignificant", PkgDir: "internal/analyzer", Funcs: []string{"CloneDetector.isSignificantClone"}, DropRecv: true,
+		Params: map[string]string{"pair": "(sim dist simThr t4 maxDist : F) (size1 size2 minNodes : Int)"},
+		Aliases: map[string]string{"cd.cloneDetectorConfig.SimilarityThreshold": "simThr", "cd.cloneDetectorConfig.Type4Threshold": "t4",
+			"cd.cloneDetectorConfig.MaxEditDistance": "maxDist", "cd.cloneDetectorConfig.MinNodes": "minNodes",
+			"pair.Similarity": "sim", "pair.Distance": "dist", "pair.Fragment1.Size": "size1", "pair.Fragment2.Size": "size2"},
+	},
+	{
+		Name: "CloneOverlap", PkgDir: "internal/analyzer", Funcs: []string{"CloneDetector.isOverlappingLocation"}, DropRecv: true,
+		Params: map[string]string{"loc1": "(file1 s1 e1 file2 s2 e2 : Int)", "loc2": ""},
+		Aliases: map[string]string{"loc1.FilePath": "file1", "loc2.FilePath": "file2", "loc1.StartLine": "s1", "loc1.EndLine": "e1",
+			"loc2.StartLine": "s2", "loc2.EndLine": "e2"},
+	},
+	{
+		Name: "CloneInclude", PkgDir: "internal/analyzer", Funcs: []string{"CloneDetector.shouldIncludeFragment"}, DropRecv: true,
+		Params: map[string]string{"fragment": "(size lines minNodes minLines : Int)"},
+		Aliases: map[string]string{"fragment.Size": "size", "fragment.LineCount": "lines", "cd.cloneDetectorConfig.MinNodes": "minNodes",
+			"cd.cloneDetectorConfig.MinLines": "minLines"},
+	},
+	{
+		Name: "CloneBatchSize", PkgDir: "internal/analyzer", Funcs: []string{"CloneDetector.calculateBatchSize"}, DropRecv: true,
+		Params: map[string]string{"fragmentCount": "(fragmentCount batchThreshold largeProject batchSmall batchLarge : Int)"},
+		Aliases: map[string]string{"cd.cloneDetectorConfig.BatchSizeThreshold": "batchThreshold", "cd.cloneDetectorConfig.LargeProjectSize": "largeProject",
+			"cd.cloneDetectorConfig.BatchSizeSmall": "batchSmall", "cd.cloneDetectorConfig.BatchSizeLarge": "batchLarge"},
+	},
 }
 
 func genUnit(l *Loader, u Unit, outdir string) error {
